@@ -45,14 +45,28 @@ def inline_call(caller_j, bi, callee_j):
     span = call.get("span")
     # parameter passing
     stmts = caller_j["blocks"][bi]["stmts"]
-    for k, a in enumerate(call["args"]):
-        stmts.append({"k": "assign", "place": {"l": lbase + 1 + k, "p": []}, "rv": {"k": "use", "op": copy.deepcopy(a)}, "span": span, "inline_arg": True})
+    closure_env = None
+    if callee_j.get("def_kind") == "Closure":
+        # `Fn::call(&closure, (a, b))`: the body takes (&closure, a, b) — the argument tuple is spread
+        if len(call["args"]) != 2 or call["args"][1].get("k") not in ("copy", "move"):
+            raise ValueError("closure call shape")
+        stmts.append({"k": "assign", "place": {"l": lbase + 1, "p": []}, "rv": {"k": "use", "op": copy.deepcopy(call["args"][0])}, "span": span, "inline_arg": True})
+        tup = call["args"][1]["place"]
+        for k in range(callee_j.get("arg_count", 1) - 1):
+            pl = {"l": tup["l"], "p": list(copy.deepcopy(tup["p"])) + [{"k": "field", "i": k, "name": str(k), "of": "", "ty": callee_j["locals"][2 + k]["ty"]}]}
+            stmts.append({"k": "assign", "place": {"l": lbase + 2 + k, "p": []}, "rv": {"k": "use", "op": {"k": "copy", "place": pl}}, "span": span, "inline_arg": True})
+        closure_env = _closure_env(caller_j, call["args"][0])
+    else:
+        for k, a in enumerate(call["args"]):
+            stmts.append({"k": "assign", "place": {"l": lbase + 1 + k, "p": []}, "rv": {"k": "use", "op": copy.deepcopy(a)}, "span": span, "inline_arg": True})
     caller_j["blocks"][bi]["term"] = {"k": "goto", "target": bbase, "span": span, "inlined_call": callee_j["path"]}
     for blk in callee_j["blocks"]:
         nb = copy.deepcopy(blk)
         nb["i"] = blk["i"] + bbase
         nb["inlined_from"] = callee_j["path"]
         _remap(nb["stmts"], lbase, bbase)
+        if closure_env:
+            _subst_upvars(nb["stmts"], lbase + 1, closure_env)
         t = nb["term"]
         k = t["k"]
         if k == "return":
@@ -67,6 +81,8 @@ def inline_call(caller_j, bi, callee_j):
             for key in ("args", "dest", "discr", "place", "cond"):
                 if key in t:
                     _remap(t[key], lbase, bbase)
+                    if closure_env:
+                        _subst_upvars(t[key], lbase + 1, closure_env)
             if k == "goto":
                 t["target"] += bbase
             elif k == "switch":
@@ -93,6 +109,68 @@ def inline_call(caller_j, bi, callee_j):
         nd = copy.deepcopy(dbg)
         _remap(nd, lbase, bbase)
         caller_j.setdefault("debug", []).append(nd)
+
+
+def _single_defs(cj):
+    defs = {}
+    for blk in cj["blocks"]:
+        for st in blk["stmts"]:
+            if st.get("k") == "assign" and not st["place"]["p"]:
+                defs.setdefault(st["place"]["l"], []).append(st["rv"])
+            elif st.get("k") == "assign":
+                defs.setdefault(st["place"]["l"], []).append(None)      # partial write
+        t = blk["term"]
+        if t["k"] == "call" and t.get("dest"):
+            defs.setdefault(t["dest"]["l"], []).append(None)
+    return defs
+
+
+def _closure_env(caller_j, self_arg):
+    """{capture index: caller local that holds the captured value / reference} for a closure called through `&closure` where the closure
+    is built once; only captures held in single-definition temporaries are listed (a by-value capture of a variable that is assigned
+    again later must keep reading the closure's own copy)."""
+    defs = _single_defs(caller_j)
+    nargs = caller_j.get("arg_count", 0)
+    op = self_arg
+    for _ in range(6):
+        if op.get("k") not in ("copy", "move") or op["place"]["p"]:
+            return None
+        ds = defs.get(op["place"]["l"], [])
+        if len(ds) != 1 or ds[0] is None:
+            return None
+        rv = ds[0]
+        if rv["k"] == "use":
+            op = rv["op"]
+            continue
+        if rv["k"] == "ref" and not rv["place"]["p"]:
+            cds = defs.get(rv["place"]["l"], [])
+            if len(cds) != 1 or cds[0] is None or cds[0]["k"] != "aggregate" or cds[0].get("agg") != "closure":
+                return None
+            env = {}
+            for i, o in enumerate(cds[0]["ops"]):
+                if o.get("k") in ("copy", "move") and not o["place"]["p"]:
+                    l = o["place"]["l"]
+                    if l > nargs and len(defs.get(l, [])) == 1 and defs[l][0] is not None:
+                        env[i] = l
+            return env
+        return None
+    return None
+
+
+def _subst_upvars(x, self_local, env):
+    """(*self).i.rest  ->  env[i].rest  inside an inlined closure body (in place)."""
+    if isinstance(x, dict):
+        if "l" in x and "p" in x and isinstance(x["p"], list):
+            p = x["p"]
+            if x["l"] == self_local and len(p) >= 2 and p[0].get("k") == "deref" and p[1].get("k") == "field" and p[1].get("i") in env:
+                x["l"] = env[p[1]["i"]]
+                x["p"] = p[2:]
+            return
+        for v in x.values():
+            _subst_upvars(v, self_local, env)
+    elif isinstance(x, list):
+        for v in x:
+            _subst_upvars(v, self_local, env)
 
 
 def fold_not_switches(cj):
@@ -279,6 +357,12 @@ def candidates(facts, pinned, allow_pub=(), multi=()):
     sites, refs = static_call_sites(facts)
     out = {}
     for k, b in facts.mir.items():
+        if b.j.get("def_kind") == "Closure":
+            # a closure that its parent calls directly, exactly once (`let step = |..| ..; … step(x)`): a local helper in closure form
+            ss = sites.get(k, [])
+            if k in allow_pub and k not in pinned and len(ss) == 1 and ss[0][0] != k and facts.mir[ss[0][0]].path == b.j.get("parent"):
+                out[k] = ss[0]
+            continue
         fi = facts.fns.get(b.path)
         if fi is None or b.j.get("def_kind") not in ("Fn", "AssocFn"):
             continue
